@@ -1,9 +1,12 @@
 // C04 correspondence harness: pixel algorithms of the real headers on views over harness-owned buffers.
 //
 // op line:   <alg> <org> <sk> <dk> <w> <h> <so> <do> <spad> <dpad> <arg> <pf> | <src values w*h> | <dst values w*h> [| <src2 values>]
-//   pf    probe flags of the build: bit 0 = fill_pixels on planar step-iterator views compiles (harness/C04/probe_fill_planar_step.cpp);
-//         without it such an op yields the observation err:no-compile
+//   pf    flags of the tree under test: bit 0 = fill_pixels on planar step-iterator views compiles (harness/C04/probe_fill_planar_step.cpp);
+//         without it such an op yields the observation err:no-compile; bit 1 (read by the model only) = image::allocate_ keeps the requested
+//         dimensions of a degenerate (w x 0 / 0 x h) image
 //   alg   copy | fill | equal | foreach | foreachpos | generate | tr1 | tr2 | trpos | cconv | imgeq
+//         imgeq: two gil::image objects (kinds ignored): image 1 is w x h with alignment <so>, image 2 is (w + arg) x h with alignment <do>
+//                (arg = 1: different dimensions); observation eq=<img1 == img2> ne=<img1 != img2>, values of image 2
 //   org   rgb8 | rgb8p | rgb565 | gray1 | gray4 | rgb222 | rgb32f            (cconv: org = source organisation gray8|rgb8, dst = rgb8 / bgr8)
 //   sk,dk view kind of source / destination:  full | sub | xstep | trans
 //         full : the whole underlying image (w x h)
@@ -50,22 +53,22 @@ template <typename P, long RANGE_> struct InterleavedOrg : ByteOrgBase {
     template <typename V> static void mark(std::vector<unsigned char>& mask, unsigned char* base, V const& v, long x, long y) {
         unsigned char* a = (unsigned char*)&v(x, y); for (long k = 0; k < U; ++k) mask[(a - base) + k] = 0xFF; }
 };
-template <> struct OrgT<0> : InterleavedOrg<gil::rgb8_pixel_t, 1L << 24> { static constexpr const char* name = "rgb8";
+template <> struct OrgT<0> : InterleavedOrg<gil::rgb8_pixel_t, 1L << 24> { static constexpr const char* name = "rgb8"; using image_t = gil::rgb8_image_t;
     static pixel_t enc(long v) { pixel_t p; gil::semantic_at_c<0>(p) = v & 255; gil::semantic_at_c<1>(p) = (v >> 8) & 255; gil::semantic_at_c<2>(p) = (v >> 16) & 255; return p; }
     template <typename Q> static long dec(Q const& p) { return (long)gil::semantic_at_c<0>(p) | ((long)gil::semantic_at_c<1>(p) << 8) | ((long)gil::semantic_at_c<2>(p) << 16); } };
-template <> struct OrgT<2> : InterleavedOrg<gil::packed_pixel_type<uint16_t, boost::mp11::mp_list_c<unsigned, 5, 6, 5>, gil::rgb_layout_t>::type, 1L << 16> { static constexpr const char* name = "rgb565";
+template <> struct OrgT<2> : InterleavedOrg<gil::packed_pixel_type<uint16_t, boost::mp11::mp_list_c<unsigned, 5, 6, 5>, gil::rgb_layout_t>::type, 1L << 16> { static constexpr const char* name = "rgb565"; using image_t = gil::packed_image3_type<uint16_t, 5, 6, 5, gil::rgb_layout_t>::type;
     static pixel_t enc(long v) { pixel_t p; gil::semantic_at_c<0>(p) = v & 31; gil::semantic_at_c<1>(p) = (v >> 5) & 63; gil::semantic_at_c<2>(p) = (v >> 11) & 31; return p; }
     template <typename Q> static long dec(Q const& p) { return (long)gil::semantic_at_c<0>(p) | ((long)gil::semantic_at_c<1>(p) << 5) | ((long)gil::semantic_at_c<2>(p) << 11); } };
-template <> struct OrgT<6> : InterleavedOrg<gil::rgb32f_pixel_t, 512> { static constexpr const char* name = "rgb32f";
+template <> struct OrgT<6> : InterleavedOrg<gil::rgb32f_pixel_t, 512> { static constexpr const char* name = "rgb32f"; using image_t = gil::rgb32f_image_t;
     static pixel_t enc(long v) { pixel_t p; gil::semantic_at_c<0>(p) = FT[v & 7]; gil::semantic_at_c<1>(p) = FT[(v >> 3) & 7]; gil::semantic_at_c<2>(p) = FT[(v >> 6) & 7]; return p; }
     template <typename Q> static long dec(Q const& p) { return fidx((float)gil::semantic_at_c<0>(p)) | (fidx((float)gil::semantic_at_c<1>(p)) << 3) | (fidx((float)gil::semantic_at_c<2>(p)) << 6); } };
-template <> struct OrgT<7> : InterleavedOrg<gil::gray8_pixel_t, 256> { static constexpr const char* name = "gray8";
+template <> struct OrgT<7> : InterleavedOrg<gil::gray8_pixel_t, 256> { static constexpr const char* name = "gray8"; using image_t = gil::gray8_image_t;
     static pixel_t enc(long v) { return pixel_t((uint8_t)(v & 255)); }
     template <typename Q> static long dec(Q const& p) { return (long)gil::at_c<0>(p); } };
-template <> struct OrgT<8> : InterleavedOrg<gil::bgr8_pixel_t, 1L << 24> { static constexpr const char* name = "bgr8";
+template <> struct OrgT<8> : InterleavedOrg<gil::bgr8_pixel_t, 1L << 24> { static constexpr const char* name = "bgr8"; using image_t = gil::bgr8_image_t;
     static pixel_t enc(long v) { pixel_t p; gil::semantic_at_c<0>(p) = v & 255; gil::semantic_at_c<1>(p) = (v >> 8) & 255; gil::semantic_at_c<2>(p) = (v >> 16) & 255; return p; }
     template <typename Q> static long dec(Q const& p) { return (long)gil::semantic_at_c<0>(p) | ((long)gil::semantic_at_c<1>(p) << 8) | ((long)gil::semantic_at_c<2>(p) << 16); } };
-template <> struct OrgT<1> : ByteOrgBase { static constexpr const char* name = "rgb8p";
+template <> struct OrgT<1> : ByteOrgBase { static constexpr const char* name = "rgb8p"; using image_t = gil::rgb8_planar_image_t;
     using pixel_t = gil::rgb8_pixel_t; static constexpr long RANGE = 1L << 24; static constexpr long U = 1;
     static size_t bytes(long W0, long H0, long pad) { return (size_t)(3 * (W0 + pad) * H0 + 8); }
     static auto make(unsigned char* p, long W0, long H0, long pad, long) { long plane = (W0 + pad) * H0; return gil::planar_rgb_view(W0, H0, p, p + plane, p + 2 * plane, W0 + pad); }
@@ -77,7 +80,7 @@ template <> struct OrgT<1> : ByteOrgBase { static constexpr const char* name = "
         mask[(unsigned char*)&gil::at_c<0>(r) - base] = 0xFF; mask[(unsigned char*)&gil::at_c<1>(r) - base] = 0xFF; mask[(unsigned char*)&gil::at_c<2>(r) - base] = 0xFF; }
 };
 template <typename Img, long RANGE_, int BITS> struct BitOrg {
-    static constexpr bool bits = true; static constexpr long RANGE = RANGE_; static constexpr long U = BITS;
+    static constexpr bool bits = true; static constexpr long RANGE = RANGE_; static constexpr long U = BITS; using image_t = Img;
     using view_t = typename Img::view_t; using pixel_t = typename view_t::value_type;
     static size_t bytes(long W0, long H0, long pad) { return (size_t)(((W0 * U + pad) * H0 + 7 + 7) / 8 + 8); }
     static auto make(unsigned char* p, long W0, long H0, long pad, long bitoff) {
@@ -146,6 +149,18 @@ template <typename OS, typename OD> static std::string run_op(std::vector<std::s
     std::string alg = hd[0];
     long w = hv::to_ll(hd[4]), h = hv::to_ll(hd[5]), so = hv::to_ll(hd[6]), dof = hv::to_ll(hd[7]), spad = hv::to_ll(hd[8]), dpad = hv::to_ll(hd[9]), arg = hv::to_ll(hd[10]);
     auto sv = parse_vals(parts.at(1)), dv = parse_vals(parts.at(2));
+    if (alg == "imgeq") {
+        if constexpr (!gil::pixels_are_compatible<typename OS::pixel_t, typename OD::pixel_t>::value) return "bad-op:alg";
+        else {
+        typename OS::image_t a(w, h, (std::size_t)so); typename OD::image_t b(w + arg, h, (std::size_t)dof);
+        { auto v = gil::view(a); long i = 0; for (long y = 0; y < h; ++y) for (long x = 0; x < w; ++x, ++i) v(x, y) = OS::enc(sv.at(i)); }
+        { auto v = gil::view(b); long i = 0; for (long y = 0; y < h; ++y) for (long x = 0; x < w + arg; ++x, ++i) v(x, y) = OD::enc(dv.at(i)); }
+        bool eq = (a == b), ne = (a != b), self = (a == a) && !(a != a);
+        std::string r = std::string("frame=ok eq=") + (eq ? "1" : "0") + " ne=" + (ne ? "1" : "0") + (self ? "" : " self=0") + " ;";
+        auto v = gil::const_view(b); for (long y = 0; y < h; ++y) for (long x = 0; x < w + arg; ++x) r += " " + std::to_string(OD::dec(v(x, y)));
+        return r;
+        }
+    }
     std::vector<long> s2v = parts.size() > 3 ? parse_vals(parts[3]) : std::vector<long>();
     Side<OS> S(geo(hd[2], w, h, so, spad, OS::bits)); Side<OS> S2(geo(hd[2], w, h, so, spad, OS::bits)); Side<OD> D(geo(hd[3], w, h, dof, dpad, OD::bits));
     std::string out;
@@ -210,9 +225,9 @@ static std::string handle(std::string const& line) {
     auto hd = hv::words(parts[0]);
     if (hd.size() != 12 || parts.size() < 3) return "bad-op";
 #ifdef C04_PLANAR_STEP_FILL
-    if (hd[11] != "1") return "bad-op:pf";
+    if (hv::to_ll(hd[11]) % 2 != 1) return "bad-op:pf";
 #else
-    if (hd[11] != "0") return "bad-op:pf";
+    if (hv::to_ll(hd[11]) % 2 != 0) return "bad-op:pf";
 #endif
 #if C04_ORG == 9
     // cross organisation pairs
